@@ -192,6 +192,15 @@ def loop_paths(func, frame, loop):
 _UNITS_CACHE = {}
 
 
+def _own_facts(facts):
+    """facts that can be loop invariants across the yields of a cluster process: statements about the
+    cluster's own containers (only cluster code changes them, and the analysis follows every such
+    change).  What a test said about anything else -- a process handle's .triggered, a task's status --
+    may have changed by the next time the loop head is reached."""
+    return {k: v for k, v in facts.items() if isinstance(k, tuple) and len(k) == 2 and isinstance(k[1], str)
+            and k[1].startswith('Cluster._')}
+
+
 def units(repo, depth=2):
     key = id(repo)
     if key in _UNITS_CACHE:
@@ -229,7 +238,7 @@ def units(repo, depth=2):
                 # facts at back edges of top-frame loops (loop invariants, round 0)
                 for i, (e, _) in enumerate(pairs):
                     if e.kind == 'back' and e.frame.depth == 0 and isinstance(e.node, ast.While):
-                        f_at = snap[i]
+                        f_at = _own_facts(snap[i])
                         back_facts = dict(f_at) if back_facts is None else {
                             k: v for k, v in back_facts.items() if f_at.get(k) == v}
                 segs = _split(pairs) if f.is_generator else [pairs]
@@ -257,7 +266,7 @@ def units(repo, depth=2):
                                 continue
                             for i, (e, _) in enumerate(pairs):
                                 if e.kind == 'back' and e.node is lp:
-                                    new_inv = {k: v for k, v in new_inv.items() if snap[i].get(k) == v}
+                                    new_inv = {k: v for k, v in new_inv.items() if _own_facts(snap[i]).get(k) == v}
                             produced.append((p, pairs, endf))
                     if new_inv == inv:
                         break
